@@ -14,7 +14,7 @@
 #define OP_LO 0
 #endif
 #ifndef OP_HI
-#define OP_HI 17
+#define OP_HI 18
 #endif
 
 static void
@@ -334,6 +334,22 @@ main_c09(void)
             ret = tsk_individual_table_keep_rows(&t2.individuals, keep, 0, idm);
             sym_assert(ret <= 0, "error code");
             tsk_table_collection_free(&t2);
+            ret = 0;
+            break;
+        }
+        case 18: {
+            /* equality of tables with different numbers of rows (Table.__eq__ / equals / assert_equals) */
+            tsk_edge_table_t big;
+            int n = sym_choice("rows", 0, 12), q;
+            tsk_edge_table_init(&big, 0);
+            tsk_edge_table_set_max_rows_increment(&big, 1);
+            for (q = 0; q < n; q++) {
+                tsk_edge_table_add_row(&big, 0, 1, 3, 0, NULL, 0);
+            }
+            (void) tsk_edge_table_equals(&big, &ts.tables->edges, 0);
+            (void) tsk_edge_table_equals(&ts.tables->edges, &big, 0);
+            (void) tsk_node_table_equals(&t.nodes, &ts.tables->nodes, 0);
+            tsk_edge_table_free(&big);
             ret = 0;
             break;
         }
